@@ -1,7 +1,9 @@
 // rlharness: drives the real rustyline crate (built from /repo's working
 // tree) on the case files the checks generate. One case per input line, one
 // canonical result per output line.
+mod direct;
 mod hist;
+mod seg;
 mod udata;
 mod util;
 
@@ -15,6 +17,10 @@ fn main() {
         eprintln!("usage: rlharness <stream> [file]");
         std::process::exit(2);
     }
+    if args[1] == "direct-child" {
+        direct::child(args.get(2).map(|s| s == "1").unwrap_or(false));
+        return;
+    }
     let stdin = std::io::stdin();
     let mut inp: Box<dyn std::io::BufRead> = if args.len() > 2 {
         Box::new(BufReader::new(std::fs::File::open(&args[2]).expect("case file")))
@@ -27,6 +33,8 @@ fn main() {
         "udata" => udata::dump(&mut out),
         "hist" => hist::run_hist(&mut inp, &mut out),
         "fhist" => hist::run_fhist(&mut inp, &mut out),
+        "seg" => seg::run(&mut inp, &mut out),
+        "direct" => direct::run(&mut inp, &mut out),
         other => {
             eprintln!("unknown stream {other}");
             std::process::exit(2);
